@@ -1853,7 +1853,32 @@ class Interp:
                 except ContinueSig:
                     continue
         elif isinstance(st, ast.Try) and contains_yield(st):
-            raise Unsupported("yield inside try")
+            try:
+                try:
+                    yield from self.gexec_block(st.body, fr)
+                except PyExc as pe:
+                    for h in st.handlers:
+                        if h.type is None or self.exc_matches(pe.exc, self.eval(h.type, fr)):
+                            if h.name:
+                                fr.locs[h.name] = pe.exc
+                            old = fr.locs.get("__active_exc__")
+                            fr.locs["__active_exc__"] = pe
+                            try:
+                                yield from self.gexec_block(h.body, fr)
+                            finally:
+                                fr.locs["__active_exc__"] = old
+                            break
+                    else:
+                        raise
+                else:
+                    yield from self.gexec_block(st.orelse, fr)
+            finally:
+                for fst in st.finalbody:
+                    if contains_yield(fst):
+                        raise Unsupported("yield inside finally")
+                self.exec_block(st.finalbody, fr)
+        elif isinstance(st, ast.With) and contains_yield(st):
+            raise Unsupported("yield inside with")
         else:
             if contains_yield(st):
                 raise Unsupported(f"yield in {type(st).__name__}")
@@ -2948,3 +2973,5 @@ def _mod_weakref(I):
 
 
 STUB_MODULES["weakref"] = _mod_weakref
+
+from . import extras  # noqa: E402,F401  (language / stdlib extensions)
